@@ -1085,6 +1085,10 @@ def sort_rule(F, rep):
 def run(ctx, rep):
     F = ctx.F
     exhaustive(F, rep)
+    # the action names the row classifier LISTS are the ones it acts on: no guard arm above shadows a listed literal
+    # (shared engine with C19-R4)
+    import rules.c19 as _c19
+    _c19.classifiers(F, rep, prefix="cgt_converter::schwab::transactions", rule="R1")
     arm_accounting(F, rep)
     lf = output_grammar(ctx, rep)
     output_pushes(F, rep, lf)
@@ -1121,6 +1125,8 @@ def run(ctx, rep):
 
 def controls(pctx, rep):
     F = pctx.F
+    import rules.c19 as _c19
+    _c19.controls(pctx, rep)
     # effect synthesis on a tiny row loop with an outcome enum and a recorder method (posctl::effsyn_rows)
     try:
         from effsyn import EffSyn
